@@ -17,12 +17,13 @@ use crate::snap::{Dt, Snap};
 pub struct C03<K: SimKernel<D>, const D: usize> {
     pub max_single: usize,
     pub max_pairs: usize,
+    pub max_kernel: usize,
     twin: Option<(Dt<K, D>, usize, String)>,
 }
 
 impl<K: SimKernel<D>, const D: usize> C03<K, D> {
     pub fn new(thorough: bool) -> Self {
-        Self { max_single: if thorough { 400 } else { 96 }, max_pairs: if thorough { 24 } else { 6 }, twin: None }
+        Self { max_single: if thorough { 400 } else { 96 }, max_pairs: if thorough { 24 } else { 6 }, max_kernel: if thorough { 160 } else { 40 }, twin: None }
     }
 }
 
@@ -39,6 +40,9 @@ fn check_unchanged<K: SimKernel<D>, const D: usize>(
     clause: &str,
 ) -> bool {
     ctx.stats.evaluations += 1;
+    // only the faults that actually fired identify the failing history
+    let fired: Vec<(String, u64)> = faults.iter().filter(|f| out.fired.contains(f)).cloned().collect();
+    let faults = &fired[..];
     let Some(post) = safe_snap(after) else {
         push_violation(
             ctx.violations,
@@ -97,12 +101,20 @@ impl<K: SimKernel<D>, const D: usize> Monitor<K, D> for C03<K, D> {
         }
         // (2) every single (site, hit)
         let mut singles: Vec<(String, u64)> = Vec::new();
+        // predicate-call failures (kernel seam) are enumerated under their own cap so that they
+        // never crowd out the named internal error returns
+        let mut ksingles: Vec<(String, u64)> = Vec::new();
         for (site, n) in &out0.counts {
             for i in 0..*n {
-                singles.push((site.clone(), i));
+                if crate::kfault::is_kernel_site(site) {
+                    ksingles.push((site.clone(), i));
+                } else {
+                    singles.push((site.clone(), i));
+                }
             }
         }
         ctx.stats.add("c03.crash_points_seen", singles.len() as u64);
+        ctx.stats.add("c03.predicate_calls_seen", ksingles.len() as u64);
         let mut rng = Rng::sub(ctx.header.run_seed, "faultsel", ctx.oprec.idx);
         if singles.len() > self.max_single {
             rng.shuffle(&mut singles);
@@ -111,6 +123,26 @@ impl<K: SimKernel<D>, const D: usize> Monitor<K, D> for C03<K, D> {
         } else {
             ctx.stats.bump("c03.steps_exhaustive");
         }
+        {
+            let mut krng = Rng::sub(ctx.header.run_seed, "kfaultsel", ctx.oprec.idx);
+            if ksingles.len() > self.max_kernel {
+                // keep the first and last few calls (entry checks, final verification) and sample the rest
+                let keep_edge = self.max_kernel / 4;
+                let n = ksingles.len();
+                let mut mid: Vec<(String, u64)> = ksingles[keep_edge..n - keep_edge].to_vec();
+                krng.shuffle(&mut mid);
+                mid.truncate(self.max_kernel - 2 * keep_edge);
+                let mut kept: Vec<(String, u64)> = ksingles[..keep_edge].to_vec();
+                kept.extend(mid);
+                kept.extend_from_slice(&ksingles[n - keep_edge..]);
+                ksingles = kept;
+                ctx.stats.bump("c03.steps_predicate_calls_sampled");
+            } else if !ksingles.is_empty() {
+                ctx.stats.bump("c03.steps_predicate_calls_exhaustive");
+            }
+        }
+        let kernel_total: u64 = out0.counts.iter().filter(|(s, _)| crate::kfault::is_kernel_site(s)).map(|(_, n)| *n).sum();
+        singles.extend(ksingles);
         let mut traces: Vec<(Vec<(String, u64)>, Vec<(String, u64)>)> = Vec::new();
         for f in &singles {
             let mut c = base.clone();
@@ -151,11 +183,22 @@ impl<K: SimKernel<D>, const D: usize> Monitor<K, D> for C03<K, D> {
             pairs_done += 1;
             let (faults1, trace) = rng.pick(&traces).clone();
             let first = faults1.last().expect("one fault").clone();
-            let Some(pos) = trace.iter().position(|x| *x == first) else { continue };
-            if pos + 1 >= trace.len() {
+            // named second fault: strictly after the first one fired (a predicate failure is not
+            // in the library's site trace, so any named site of that execution may follow it)
+            let start = match trace.iter().position(|x| *x == first) {
+                Some(pos) => pos + 1,
+                None if crate::kfault::is_kernel_site(&first.0) => 0,
+                None => continue,
+            };
+            let second = if kernel_total > 0 && (start >= trace.len() || rng.chance(1, 3)) {
+                // a predicate failure somewhere in the (possibly longer) faulted execution
+                let site = if rng.chance(1, 2) { crate::kfault::ORIENTATION } else { crate::kfault::IN_SPHERE };
+                (site.to_string(), rng.below(kernel_total + 8))
+            } else if start < trace.len() {
+                trace[start + rng.usize_below(trace.len() - start)].clone()
+            } else {
                 continue;
-            }
-            let second = trace[pos + 1 + rng.usize_below(trace.len() - pos - 1)].clone();
+            };
             if second == first {
                 continue;
             }
